@@ -64,7 +64,8 @@ SolveClauses(e, exp) ==
                 \/ LabCostUn(inp, I, sols[i]) # e.lcosts[i])
            THEN {"ClauseCostRecount"} ELSE {})
      \cup (IF \E i \in DOMAIN sols : e.costs[i] >= Inf THEN {"ClauseFiniteCost"} ELSE {})
-     \cup (IF \E i \in DOMAIN sols : e.costs[i] # exp.min THEN {"ClauseMin"} ELSE {})
+     \cup (IF \E i \in DOMAIN sols : e.costs[i] # exp.min \/ (ValidUn(inp, I, OI, sols[i]) /\ CostUn(inp, I, sols[i]) # exp.min)
+           THEN {"ClauseMin"} ELSE {})
      \cup (IF \E i, j \in DOMAIN sols : e.costs[i] # e.costs[j] THEN {"ClauseSameCost"} ELSE {})
      \cup (IF (Len(sols) = 0) # (exp.opt = {}) THEN {"ClauseEmptyIffNoSolution"} ELSE {})
      \cup (IF \E s \in solset : ValidUn(inp, I, OI, s) /\ ~Canonical(inp, OI, s) THEN {"ClauseCanonical"} ELSE {})
